@@ -37,6 +37,8 @@ pub struct Ctx {
 /// wall-clock watchdog: a case running longer than the limit ends the process with
 /// exit code 3 (inconclusive, never a violation); the orchestrator resumes after it
 pub static CASE_START_MS: std::sync::atomic::AtomicU64 = std::sync::atomic::AtomicU64::new(0);
+/// longest CPU time (ms) a case of this shard spent without any observable step (progress monitor)
+pub static MAX_EVENTLESS_CPU_MS: std::sync::atomic::AtomicU64 = std::sync::atomic::AtomicU64::new(0);
 static EPOCH: std::sync::OnceLock<Instant> = std::sync::OnceLock::new();
 
 fn now_ms() -> u64 {
@@ -102,7 +104,10 @@ pub fn start_watchdog(limit_s: u64, spin_cpu_s: u64) {
                 last_events = ev;
                 last_start = st;
                 cpu_at_change = cpu;
-            } else if cpu - cpu_at_change >= spin_cpu_s as f64 {
+            } else {
+                MAX_EVENTLESS_CPU_MS.fetch_max(((cpu - cpu_at_change) * 1000.0) as u64, std::sync::atomic::Ordering::Relaxed);
+            }
+            if ev == last_events && st == last_start && cpu - cpu_at_change >= spin_cpu_s as f64 {
                 println!("{}", json!({"k": "note", "what": "spin-no-progress", "detail": {"cpu_s_without_event": cpu - cpu_at_change, "events": ev}}));
                 std::process::exit(4);
             }
@@ -295,8 +300,9 @@ impl Ctx {
         println!("{rec}");
     }
 
-    pub fn finish(self) {
+    pub fn finish(mut self) {
         CASE_START_MS.store(0, std::sync::atomic::Ordering::Relaxed);
+        self.counters.insert("max:eventless_cpu_ms".into(), MAX_EVENTLESS_CPU_MS.load(std::sync::atomic::Ordering::Relaxed));
         let viols: BTreeMap<String, u64> = self.viol_per_sig.clone();
         if let Some(d) = &self.out_dir {
             let mut f = std::fs::File::create(format!("{d}/fps.{}.{}", self.k.name(), self.shard)).expect("fps");
